@@ -1,7 +1,7 @@
 /* C04: contracts of the list / dict arms of JSON::serialize over the token emitters of stubs/C04_emit.h (piece 6).
  * One compilation per container kind (-DC04_DICT=0|1).  The postcondition is the property's: the text is `[` V (`,` V)* `]`
  * resp. `{` S `:` V (`,` S `:` V)* `}` with optional whitespace -- i.e. it is accepted by the RFC 8259 grammar automaton --
- * with exactly one V per element, children serialised with the parent's options (and indent + 2 under FORMAT), list order kept. */
+ * with exactly one V per element, children serialised with the parent's options, list order kept. */
 #ifndef C04_CONTAINER_H
 #define C04_CONTAINER_H
 #include "stubs/C04_emit.h"
@@ -14,9 +14,14 @@
 #endif
 #define C04_MEMBER_LOOP_INV(ret, i, n) \
   ((i) <= (n) && g_count == (i) && g_q == ((i) == 0 ? C04_Q_OPEN : C04_Q_VALUE) && ((i) == 0 ? (ret)->size == 1 : (ret)->size > 1) && C04_SIZE_OK(ret) && g_args_ok && verif_exc == 0)
+#ifdef VERIF_SMALL
+#define C04_NMAX_ 4
+#else
+#define C04_NMAX_ C04_BIG
+#endif
 #define C04_SER_REQ(K) \
   __CPROVER_requires(__CPROVER_is_fresh(self, sizeof(JSONV))) \
-  __CPROVER_requires(self->kind == K && verif_exc == 0 && self->n < C04_BIG) \
+  __CPROVER_requires(self->kind == K && verif_exc == 0 && self->n < C04_NMAX_) \
   __CPROVER_requires(__CPROVER_is_fresh(ret, sizeof(vstr))) \
   __CPROVER_requires(g_args_ok && g_options == options && g_indent == indent_level && g_format == ((options & SerializeOption_FORMAT) != 0) && g_mode == escape_mode)
 #define C04_SER_ENS \
